@@ -649,6 +649,14 @@ ParserHeaderSecondaryUnbalanced(void* parameter, uint8_t* msg, int msgSize)
         userDataLength = (int)msg[1] - addressLength - 1;
         userDataStart = 5 + addressLength;
 
+        /* L has to cover at least the control and address fields */
+        if (userDataLength < 0)
+        {
+            DEBUG_PRINT("ERROR: L field too small!\n");
+            llsu_setState(self, LL_STATE_ERROR);
+            return;
+        }
+
         csStart = 4;
         csIndex = userDataStart + userDataLength;
 
@@ -771,6 +779,13 @@ HandleMessageBalancedAndPrimaryUnbalanced(void* parameter, uint8_t* msg, int msg
 
         userDataLength = (int)msg[1] - self->linkLayerParameters->addressLength - 1;
         userDataStart = 5 + self->linkLayerParameters->addressLength;
+
+        /* L has to cover at least the control and address fields */
+        if (userDataLength < 0)
+        {
+            DEBUG_PRINT("ERROR: L field too small!\n");
+            return;
+        }
 
         csStart = 4;
         csIndex = userDataStart + userDataLength;
